@@ -21,12 +21,45 @@ func pfbWF(r *pfbReader) bool {
 //@ requires r != nil
 //@ ensures result != nil
 
+// specHexDigit: the j-th output byte of a binary segment renders a nibble of
+// input byte j/2 (high nibble first) as a lower-case hexadecimal digit.
+func specHexDigit(x byte, j int) byte {
+	if j%2 == 0 {
+		return "0123456789abcdef"[x>>4]
+	}
+	return "0123456789abcdef"[x&15]
+}
+
+// C14, functional part.  tape(k) is the k-th byte the underlying reader
+// delivers (in whatever portions), tpos() the number delivered so far.  One
+// iteration of the main loop is one step of the PFB decoder (Adobe TN 5040):
+//  state 0  reads a six byte header 128, type, length (little endian);
+//  state 1  copies text bytes verbatim;
+//  state 2  renders binary bytes as two hex digits each; an odd caller buffer
+//           keeps the last low digit in r.tail (state -1);
+//  state -1 delivers that digit.
+// out(j) below is the j-th byte of the caller's buffer counted from the head
+// of the iteration (prev(b)[j]).
+//@ func (*pfbReader).Read
+//@ loop 1 back-when [C14.step.text] prev(r.state) == 1 ==> tpos() == prev(tpos()) + (n - prev(n)) && r.len == prev(r.len) - int64(n - prev(n)) && (forall j :: 0 <= j && j < n - prev(n) ==> prev(b)[j] == tape(prev(tpos()) + j)) && (r.len == 0 ==> r.state == 0) && (r.len != 0 ==> r.state == 1)
+//@ loop 1 back-when [C14.step.binary] prev(r.state) == 2 ==> r.len == prev(r.len) - int64(tpos() - prev(tpos())) && (n - prev(n) == 2*(tpos() - prev(tpos())) || n - prev(n) == 2*(tpos() - prev(tpos())) - 1) && (forall j :: 0 <= j && j < n - prev(n) ==> prev(b)[j] == specHexDigit(tape(prev(tpos()) + j/2), j))
+//@ loop 1 back-when [C14.step.binary.odd] prev(r.state) == 2 && n - prev(n) == 2*(tpos() - prev(tpos())) - 1 ==> r.state == -1 && r.tail == specHexDigit(tape(tpos() - 1), 1)
+//@ loop 1 back-when [C14.step.binary.even] prev(r.state) == 2 && n - prev(n) == 2*(tpos() - prev(tpos())) ==> (r.len == 0 ==> r.state == 0) && (r.len != 0 ==> r.state == 2)
+//@ loop 1 back-when [C14.step.binary.fill] prev(r.state) == 2 && prev(r.len) > 0 ==> (n - prev(n) == prev(len(b)) || r.len == 0)
+//@ loop 1 back-when [C14.step.tail] prev(r.state) == -1 ==> n == prev(n) + 1 && prev(b)[0] == prev(r.tail) && tpos() == prev(tpos()) && r.len == prev(r.len) && (r.len == 0 ==> r.state == 0) && (r.len != 0 ==> r.state == 2)
+//@ loop 1 back-when [C14.step.header] prev(r.state) == 0 ==> n == prev(n) && tape(prev(tpos())) == 128 && tape(prev(tpos()) + 1) >= 1 && tape(prev(tpos()) + 1) <= 3 && r.state == int(tape(prev(tpos()) + 1)) && (tpos() == prev(tpos()) + 6 ==> r.len == int64(tape(prev(tpos()) + 2)) + int64(tape(prev(tpos()) + 3))*256 + int64(tape(prev(tpos()) + 4))*65536 + int64(tape(prev(tpos()) + 5))*16777216)
+//@ loop 1 back-when [C14.step.frame] forall j :: 0 <= j && j < prev(n) ==> old(b)[j] == prev(old(b)[j])
+//@ loop 2 invariant [C14.hexloop.k] outer(r.state) == 2 ==> 0 <= k && 2*k - 1 <= l && l <= 2*k && tpos() == outer(tpos()) + k && sameslice(b, outer(b))
+//@ loop 2 invariant [C14.hexloop.done] outer(r.state) == 2 ==> (forall j :: i < j && j < l ==> b[j] == specHexDigit(tape(outer(tpos()) + j/2), j))
+//@ loop 2 invariant [C14.hexloop.todo] outer(r.state) == 2 ==> (forall j :: 0 <= j && j <= i && j < k ==> b[j] == tape(outer(tpos()) + j))
+//@ loop 2 invariant [C14.hexloop.frame] forall j :: 0 <= j && j < outer(n) ==> old(b)[j] == outer(old(b)[j])
+
 //@ func (*pfbReader).Read
 //@ safety C01 C14
 //@ requires r != nil && pfbWF(r)
 //@ ensures pfbWF(r)
 //@ ensures [C14.count] 0 <= n && n <= len(b)
 //@ loop 1 invariant pfbWF(r)
-//@ loop 1 invariant 0 <= n && n + len(b) == len(old(b))
+//@ loop 1 invariant 0 <= n && n + len(b) == len(old(b)) && ref(b) == ref(old(b)) && off(b) == off(old(b)) + n
 //@ loop 2 invariant -1 <= i && i < l && l <= len(b)
 //@ loop 2 decreases i + 1
